@@ -288,7 +288,8 @@ def run(ctx):
                                           'penalize_zero_diagonal_vs_condense(rel)': state.get('pen0_maxdisc', 0.0),
                                           'eigen_residual(rel)': state['eig_maxdisc'], 'eigen_tolerance': 1e-8,
                                           'mpc_solve_vs_exact(rel)': state.get('mpc_maxdisc', 0.0),
-                                          'complex_solve(rel)': state.get('complex_maxdisc', 0.0)}
+                                          'complex_solve(rel)': state.get('complex_maxdisc', 0.0),
+                                          'mpc_complex_noncsr(rel)': state.get('mpc_variant_maxdisc', 0.0)}
     if gen_ok:
         nt = lambda r: r.get('nontrivial', False)  # noqa: E731
         spec = [('enforce', 'run_enforce', '(option_eqb eq_mo)'),
@@ -783,6 +784,56 @@ def check_complex_case(ctx, state, n, rng):
     state['complex_maxdisc'] = max(state.get('complex_maxdisc', 0.0), worst)
 
 
+def check_mpc_variants(ctx, state, rng):
+    """mpc with complex-valued data and matrices that are not in CSR format: for x = solve(*mpc(...)) the constraint
+    x[S] = T x[M] + g and the rows U, M of A x = b must hold (float residuals on diagonally dominant systems)"""
+    from skfem.utils import mpc, solve
+    n = rng.randint(4, 9)
+    ip, ix, d = rand_csr(rng, n, dominant=True, empty_p=0.0)
+    cplx = rng.random() < 0.5
+    fmt = rng.choice(['csr', 'csc', 'lil'])
+    data = np.array(d, dtype=complex if cplx else float)
+    if cplx:
+        data = data + 0.25j * np.array([0 if ix[k] == i else rng.randint(-2, 2) for i in range(n) for k in range(ip[i], ip[i + 1])])
+    A = sp.csr_matrix((data, np.array(ix, dtype=np.int32), np.array(ip, dtype=np.int32)), shape=(n, n)).asformat(fmt)
+    k = rng.randint(1, n // 2)
+    SM = rng.sample(range(n), 2 * k)
+    S, M = SM[:k], SM[k:]
+    T = np.array([[rng.choice([0, 1, -1, 2]) for _ in M] for _ in S], dtype=complex if cplx else float).reshape(k, k)
+    g = np.array([rng.randint(-3, 3) for _ in S], dtype=complex if cplx else float)
+    b = np.array([rng.randint(-9, 9) for _ in range(n)], dtype=complex if cplx else float)
+    if cplx:
+        T = T + 1j * np.array([[rng.choice([0, 0, 1]) for _ in M] for _ in S]).reshape(k, k)
+        g = g + 1j * np.array([rng.randint(-2, 2) for _ in S])
+        b = b + 1j * np.array([rng.randint(-5, 5) for _ in range(n)])
+    rep = {'fn': 'mpc (complex / non-CSR)', 'n': n, 'format': fmt, 'complex': cplx, 'indptr': ip, 'indices': ix,
+           'data': [[float(np.real(v)), float(np.imag(v))] for v in data], 'S': S, 'M': M,
+           'T': [[[float(np.real(v)), float(np.imag(v))] for v in r] for r in T], 'g': [[float(np.real(v)), float(np.imag(v))] for v in g],
+           'b': [[float(np.real(v)), float(np.imag(v))] for v in b]}
+    ctx.count(('mpc_variant', n, fmt, cplx, ip, ix, rep['data'], S, M, rep['T'], rep['g'], rep['b']), nontrivial=True)
+    ctx.hist('mpc_variant', ('complex' if cplx else 'real') + ':' + fmt)
+    before = checksum(A, b, g)
+    try:
+        with warnings.catch_warnings():
+            warnings.simplefilter('ignore')
+            red = mpc(A, b, S=np.array(S), M=np.array(M), T=sp.csr_matrix(T), g=g)
+            if np.linalg.cond(red[0].toarray()) > 1e6:
+                return        # the constrained problem itself is (nearly) singular: nothing to compare
+            x = np.asarray(solve(*red))
+    except Exception as e:  # noqa: BLE001
+        ctx.fail('mpc:variant:raises', f'solve(*mpc(...)) raises {e!r} ({"complex" if cplx else "real"} data, {fmt} matrix)', rep)
+        return
+    U = [i for i in range(n) if i not in S and i not in M]
+    scale = max(1.0, float(np.max(np.abs(x))))
+    e_c = float(np.max(np.abs(x[S] - (T @ x[M] + g)))) / scale
+    e_r = float(np.max(np.abs((A @ x - b)[U + M]))) / max(1.0, float(np.max(np.abs(b))))
+    state['mpc_variant_maxdisc'] = max(state.get('mpc_variant_maxdisc', 0.0), e_c, e_r)
+    if not (e_c <= 1e-9 and e_r <= 1e-9) or checksum(A, b, g) != before:
+        ctx.fail('mpc:variant', f'mpc with {"complex" if cplx else "real"} data and a {fmt} matrix: constraint error {e_c:.1e}, residual on '
+                 f'rows U, M {e_r:.1e}' + ('' if np.iscomplexobj(x) or not cplx else ' (imaginary part lost)'),
+                 dict(rep, solution=[[float(np.real(v)), float(np.imag(v))] for v in x]))
+
+
 def check_expand(ctx, cases, n, x, I, z, X):
     from skfem.utils import solve_linear, solve_eigen
     xx = np.array(x, dtype=float)
@@ -822,13 +873,22 @@ def check_eigen_pipeline(ctx, state, n, rng):
     import scipy.linalg as la
     from skfem.utils import condense, solve
     nprng = np.random.default_rng(rng.randrange(2 ** 31))
+    cplx = rng.random() < 0.4                     # Hermitian positive definite pencils with complex entries
+    fa, fm = rng.choice(['csr', 'csc', 'lil']), rng.choice(['csr', 'csc', 'lil'])
     G = nprng.integers(-2, 3, size=(n, n)).astype(float)
-    A = sp.csr_matrix(G @ G.T + n * np.eye(n))
     H = nprng.integers(-1, 2, size=(n, n)).astype(float)
-    M = sp.csr_matrix(H @ H.T + n * np.eye(n))
+    if cplx:
+        G = G + 1j * nprng.integers(-2, 3, size=(n, n))
+        H = H + 1j * nprng.integers(-1, 2, size=(n, n))
+    A = sp.csr_matrix(G @ G.conj().T + n * np.eye(n)).asformat(fa)
+    M = sp.csr_matrix(H @ H.conj().T + n * np.eye(n)).asformat(fm)
+    ctx.hist('eigen_pencil', ('complex' if cplx else 'real') + f':{fa}/{fm}')
     k = rng.randint(1, n - 1)
     D = rng.sample(range(n), k)
+    if rng.random() < 0.3:
+        D = D + [D[0]]                            # a repeated index denotes a set
     Darr = idx_array(rng, D)
+    D = dedup(D)
 
     def dense_solver(Ac, Mc, **kw):
         w, V = la.eigh(Ac.toarray(), Mc.toarray())
@@ -903,6 +963,8 @@ def _gen_random(ctx, cases, state):
                 check_penalize_limit(ctx, state, n, csr, b, x, D, rng, zero_diag=True)
     for it in range(ctx.n(60, 400)):
         check_noncanonical(ctx, rng.randint(1, nmax), rng)
+    for it in range(ctx.n(30, 200)):
+        check_mpc_variants(ctx, state, rng)
     for it in range(ctx.n(40, 250)):
         check_complex_case(ctx, state, rng.randint(2, nmax), rng)
     for it in range(ctx.n(15, 80)):
